@@ -7,7 +7,7 @@ summaries: end kind, return term, facts, ordered effect trace.
 """
 import re
 
-from .terms import (Facts, Int, TRUE, FALSE, UNIT, agg, is_int, short, CMP_OPS)
+from .terms import (Facts, Int, TRUE, FALSE, UNIT, agg, is_int, short, CMP_OPS, _maybe_signed)
 
 
 class Budget(Exception):
@@ -258,10 +258,16 @@ class Walker:
                         st.heap = {}
                         break
                     if pl[1][0] != "local":
+                        exact = all(isinstance(e, tuple) and e and e[0] == "f" for e in pl[2]) and len(pl[2]) > 0
+                        if exact and (pl[1], pl[2]) in st.heap:
+                            pre[("heap", pl[1], pl[2])] = st.heap[(pl[1], pl[2])]
                         for hk in list(st.heap.keys()):
                             r2, p2 = hk
                             if r2 == pl[1] and (p2[:len(pl[2])] == pl[2] or pl[2][:len(p2)] == p2):
                                 del st.heap[hk]
+                        if exact:
+                            # a field written inside the loop is loop-carried: unknown at the header (not its pre-loop value)
+                            st.heap[(pl[1], pl[2])] = ("havoc", self._site_str(key), ("heap", pl[1], pl[2]))
                 st.trace.append(("loop", self._site_str(key), pre, body.defp))
                 if self.on_loop is not None:
                     self.on_loop(st, fr, self._site_str(key), pre)
@@ -433,6 +439,10 @@ class Walker:
                 if base is None:
                     base = ("uninit", root[1], root[2])
             return self._proj(base, path)
+        if root[0] == "obj" and isinstance(root[1], tuple) and root[1][0] == "deref" and isinstance(root[1][1], tuple) \
+                and root[1][1][0] == "refval" and (root, ()) not in st.heap and not any(k[0] == root for k in st.heap):
+            # `*r` where r is a by-value reference to a known value (promoted constant, borrowed temporary)
+            return self._proj(root[1][1][1], path)
         # abstract object: look for the longest overlay prefix
         for k in range(len(path), -1, -1):
             key = (root, path[:k])
@@ -534,6 +544,9 @@ class Walker:
             if "pstr" in o:
                 # promoted `&"literal"`: a reference to a &str holding the literal
                 return ("refval", ("str", o["pstr"]))
+            if "penum_adt" in o:
+                # promoted `&Enum::UnitVariant`
+                return ("refval", agg(o["penum_adt"], o["penum_variant"], []))
             if o.get("zst"):
                 return ("zst", o["ty"])
             if "uneval" in o:
@@ -980,6 +993,21 @@ class Walker:
                 return ("val", Int(min(a[1], b[1]) if name == "min" else max(a[1], b[1])))
             x, y = sorted((a, b), key=repr)
             return ("val", (name, x, y))
+        if name in ("then", "then_some") and len(args) == 2 and (impl_self == "bool" or "bool::" in cn):
+            # bool::then(f) = if self { Some(f()) } else { None } ; then_some(v) likewise with the value
+            c = args[0]
+            OPT = "std::option::Option"
+            if name == "then":
+                act = self._apply_fn(st, fr, args[1], [], lambda val: agg(OPT, "Some", [("0", val)]))
+                if act is None:
+                    return None
+                yes = act[1] if act[0] == "val" else ("__inline__", act[1], act[2], act[3])
+            else:
+                yes = agg(OPT, "Some", [("0", args[1])])
+            return ("fork", [
+                (lambda s, c=c: s.facts.assume(c, True), yes),
+                (lambda s, c=c: s.facts.assume(c, False), agg(OPT, "None", [])),
+            ])
         if name == "saturating_sub" and len(args) == 2:
             return ("val", ("satsub", args[0], args[1]))
         if name == "saturating_add" and len(args) == 2:
@@ -987,6 +1015,16 @@ class Walker:
         if name in ("eq", "ne") and tr == "std::cmp::PartialEq" and len(args) == 2:
             a = self._deref_val(st, args[0])
             b = self._deref_val(st, args[1])
+            # comparison of an enum value with a constant unit variant (`*self == Side::Buy`): a variant test
+            for x, c in ((a, b), (b, a)):
+                if isinstance(c, tuple) and c[0] == "agg" and not c[3] and c[2] is not None and not (isinstance(x, tuple) and x[0] == "agg"):
+                    adt = self.db.adts.get(c[1])
+                    if adt is not None and adt["kind"] == "enum" and all(not v["fields"] for v in adt["variants"]):
+                        yes, no = (TRUE, FALSE) if name == "eq" else (FALSE, TRUE)
+                        alts = []
+                        for v in adt["variants"]:
+                            alts.append((lambda s, x=x, vn=v["name"]: s.facts.assume_variant(x, vn), yes if v["name"] == c[2] else no))
+                        return ("fork", alts)
             return ("val", self.binop("Eq" if name == "eq" else "Ne", a, b))
         if name in ("cmp", "partial_cmp") and len(args) == 2 and tr in ("std::cmp::Ord", "std::cmp::PartialOrd") and \
                 (impl_self in ("u8", "u16", "u32", "u64", "u128", "usize", "i8", "i16", "i32", "i64", "i128", "isize") or "impls" in callee["path"]):
@@ -1008,6 +1046,11 @@ class Walker:
                 return ("val", self._proj1(args[0], ("f", "Some", "0")))
             if v == "None":
                 return ("val", args[1])
+            a0 = args[0]
+            if isinstance(a0, tuple) and a0[0] == "call" and isinstance(a0[1], str) and a0[1].endswith("::checked_sub") and len(a0[2]) == 2 \
+                    and args[1] == Int(0) and not _maybe_signed(a0[2][0]):
+                # a.checked_sub(b).unwrap_or(0) is a.saturating_sub(b) (unsigned)
+                return ("val", ("satsub", a0[2][0], a0[2][1]))
             return ("val", ("unwrap_or", args[0], args[1]))
         # --- direct closure calls
         if name in ("call", "call_mut", "call_once") and tr in ("std::ops::Fn", "std::ops::FnMut", "std::ops::FnOnce"):
@@ -1145,6 +1188,21 @@ class Walker:
             b = self.db.bodies.get(fv[1])
             if b is not None and fr.depth < self.max_depth + 2 and not self.no_inline(fv[1]):
                 return ("inline", b, list(argvals), post)
+            if b is not None:
+                # a crate-local function named as a value (`.and_then(Self::from_snapshot)`) that this analysis keeps
+                # opaque: same treatment as a direct call of it (effect hook, then an opaque call term + trace event)
+                callee = {"path": fv[1], "declared": fv[1], "resolved": fv[1], "name": b.name, "trait": b.impl_trait,
+                          "impl_self": b.impl_self, "local": True, "rkind": "item", "path_args": [], "gargs": [], "crate": None}
+                site = self._site(fr, st.bb)
+                eff = self.effect_of(callee, list(argvals), st, self)
+                if eff is not None:
+                    val = ("eff", eff, self._site_str(site))
+                    st.trace.append(("eff", eff, tuple(argvals), val, site, "", callee, tuple(self._arg_value(st, a) for a in argvals)))
+                    self.stats["effects"] += 1
+                else:
+                    val = ("call", p, tuple(self._arg_value(st, a) for a in argvals), self._site_str(site))
+                    st.trace.append(("call", p, tuple(argvals), val, site, "", callee, len(st.facts.order), None))
+                return ("val", post(val) if post else val)
         return None
 
     def _ctor_of(self, path):
